@@ -711,6 +711,131 @@ func verifierProblem(c *core.Ctx, r *Roles, v *ssa.Function) string {
 	})
 	have := map[string]bool{}
 	problem := ""
+	// collect-then-probe: the verifier puts the digests into a list of small records and hands the list to a function
+	// of the package that probes every element (BlobGet on its repository parameter with a field of the element, in a
+	// loop over its slice parameter, failure recorded) and returns the list of failures
+	listProbers := map[*ssa.Call]bool{}
+	an.Calls(v, func(call ssa.CallInstruction) {
+		cc, isCall := call.(*ssa.Call)
+		if !isCall {
+			return
+		}
+		h := cc.Call.StaticCallee()
+		if h == nil || len(h.Blocks) == 0 || core.FuncPkgPath(h) != core.FuncPkgPath(v) || h == v {
+			return
+		}
+		// the prober's own shape
+		ri, si, elemField := -1, -1, ""
+		var inner *ssa.Call
+		an.Calls(h, func(c2 ssa.CallInstruction) {
+			ic, ok := c2.(*ssa.Call)
+			if !ok || !r.IsAPI(c2, "Repo", "BlobGet") {
+				return
+			}
+			recv, args := an.CallArgs(c2)
+			if len(args) != 1 {
+				return
+			}
+			root, pth := deepAccessPath(args[0])
+			for i, p := range h.Params {
+				if an.Origin(recv) == ssa.Value(p) {
+					ri = i
+				}
+				if root == ssa.Value(p) && len(pth) == 2 && pth[0] == "[]" {
+					si, elemField, inner = i, pth[1], ic
+				}
+			}
+		})
+		if ri < 0 || si < 0 || inner == nil || !inLoop(inner.Block()) || ri >= len(cc.Call.Args) || si >= len(cc.Call.Args) {
+			return
+		}
+		if an.Origin(cc.Call.Args[ri]) != ssa.Value(repoParam) {
+			return
+		}
+		// failure recorded on the missing edge, list returned
+		ierr := an.ErrResult(inner)
+		rec := false
+		for _, b := range h.Blocks {
+			if ifi := an.BlockIf(b); ifi != nil {
+				if x, nilSucc, ok := an.NilTest(ifi); ok && x == ierr && recordedFrom(b.Succs[1-nilSucc]) {
+					rec = true
+				}
+			}
+		}
+		if !rec || !listReturnOK(h, nil) {
+			return
+		}
+		listProbers[cc] = true
+		// what the verifier put into the list: the elements of every append that flows into the argument
+		seen := map[ssa.Value]bool{}
+		var back func(x ssa.Value, d int)
+		back = func(x ssa.Value, d int) {
+			x = an.Strip(x)
+			if d > 12 || seen[x] {
+				return
+			}
+			seen[x] = true
+			switch y := x.(type) {
+			case *ssa.Phi:
+				for _, e := range y.Edges {
+					back(e, d+1)
+				}
+			case *ssa.Call:
+				if !isAppend(y) || len(y.Call.Args) != 2 {
+					return
+				}
+				back(y.Call.Args[0], d+1)
+				// the appended elements: a slice of the variadic array
+				sl, ok := an.Strip(y.Call.Args[1]).(*ssa.Slice)
+				if !ok {
+					return
+				}
+				arr, ok := sl.X.(*ssa.Alloc)
+				if !ok || arr.Referrers() == nil {
+					return
+				}
+				for _, ref := range *arr.Referrers() {
+					ia, ok := ref.(*ssa.IndexAddr)
+					if !ok {
+						continue
+					}
+					// the element is filled field by field, or copied whole from a literal
+					vals := structStores(ia)[elemField]
+					if ia.Referrers() != nil {
+						for _, rr := range *ia.Referrers() {
+							if st, ok := rr.(*ssa.Store); ok && st.Addr == ssa.Value(ia) {
+								if ld, ok := an.Strip(st.Val).(*ssa.UnOp); ok && ld.Op == token.MUL {
+									vals = append(vals, structStores(ld.X)[elemField]...)
+								}
+							}
+						}
+					}
+					for _, dv := range vals {
+						root, p := deepAccessPath(dv)
+						if root != ssa.Value(structParam) || len(p) < 2 || p[len(p)-1] != "Digest" {
+							continue
+						}
+						field := p[0]
+						switch need[field] {
+						case "one":
+							if pathEq(p, field, "Digest") {
+								have[field] = true
+							}
+						case "many":
+							if pathEq(p, field, "[]", "Digest") {
+								if inLoop(y.Block()) {
+									have[field] = true
+								} else {
+									problem = fmt.Sprintf("field %s is not collected in a loop over all its elements", field)
+								}
+							}
+						}
+					}
+				}
+			}
+		}
+		back(cc.Call.Args[si], 0)
+	})
 	for _, pr := range probes {
 		root, p := accessPath(an.Strip(pr.digest))
 		if al, ok := root.(*ssa.Alloc); ok {
@@ -770,6 +895,23 @@ func verifierProblem(c *core.Ctx, r *Roles, v *ssa.Function) string {
 	}
 	// ‘nothing missing’ is only answered when nothing was recorded: a nil return is guarded by the emptiness of the list,
 	// or the list itself is returned (nil exactly when nothing was appended to its nil initial value)
+	if !listReturnOK(v, func(call *ssa.Call) bool { return listProbers[call] }) {
+		return fmt.Sprintf("%s can answer ‘nothing missing’ (nil) although a missing blob was recorded: its result is neither the list of recorded failures nor nil on the ‘list is empty’ edge", c.P.FuncName(v))
+	}
+	return ""
+}
+
+// listReturnOK: every return of the list-building function returns nil only on the ‘list is empty’ edge, or the
+// list itself (appends over a nil / empty initial value, or the result of an accepted call).
+func listReturnOK(v *ssa.Function, acceptCall func(*ssa.Call) bool) bool {
+	isAppend := func(in ssa.Instruction) bool {
+		cl, ok := in.(*ssa.Call)
+		if !ok {
+			return false
+		}
+		bi, ok := cl.Call.Value.(*ssa.Builtin)
+		return ok && bi.Name() == "append"
+	}
 	okNil := true
 	anyRet := false
 	an.Instrs(v, func(in ssa.Instruction) {
@@ -821,6 +963,9 @@ func verifierProblem(c *core.Ctx, r *Roles, v *ssa.Function) string {
 				if isAppend(y) {
 					return fromList(y.Call.Args[0], d+1)
 				}
+				if acceptCall != nil && acceptCall(y) {
+					return true
+				}
 			case *ssa.Slice:
 				return true // an empty literal []T{}
 			}
@@ -830,10 +975,7 @@ func verifierProblem(c *core.Ctx, r *Roles, v *ssa.Function) string {
 			okNil = false
 		}
 	})
-	if !anyRet || !okNil {
-		return fmt.Sprintf("%s can answer ‘nothing missing’ (nil) although a missing blob was recorded: its result is neither the list of recorded failures nor nil on the ‘list is empty’ edge", c.P.FuncName(v))
-	}
-	return ""
+	return anyRet && okNil
 }
 
 // inLoop: the block lies on a CFG cycle.
@@ -884,6 +1026,40 @@ func runRefTag(c *core.Ctx) {
 					}
 					return
 				}
+				// a field of a small struct a parsing helper of the package returned (ref.tag): whatever the helper puts
+				// into that field was checked inside the helper on the way to the return that hands it out
+				var structVal ssa.Value
+				fieldIdx := -1
+				switch x := an.Strip(v).(type) {
+				case *ssa.Field:
+					structVal, fieldIdx = x.X, x.Field
+				case *ssa.UnOp:
+					// the struct is kept in a local variable assigned once
+					if fa, ok := x.X.(*ssa.FieldAddr); ok && x.Op == token.MUL {
+						if whole := an.SingleStore(fa.X); whole != nil && !fieldWritten(fa.X, fa.Field) {
+							structVal, fieldIdx = whole, fa.Field
+						}
+					}
+				}
+				if structVal != nil {
+					if stt, ok := structVal.Type().Underlying().(*types.Struct); ok && fieldIdx < stt.NumFields() {
+						fname := stt.Field(fieldIdx).Name()
+						if hr := an.HelperReturns(structVal, func(h *ssa.Function) bool { return core.FuncPkgPath(h) == c.P.Module }); len(hr) > 0 {
+							for _, x := range hr {
+								ss := structStores(an.Origin(x.Val))
+								if len(ss) == 0 {
+									if u, ok := x.Val.(*ssa.UnOp); ok {
+										ss = structStores(u)
+									}
+								}
+								for _, val := range ss[fname] {
+									check(val, x.Ret.Block(), depth+1)
+								}
+							}
+							return
+						}
+					}
+				}
 				// the assigning block must be guarded by RefTagRE.MatchString(v) == true
 				o := an.Origin(v)
 				guards := an.GuardingEdges(at)
@@ -908,6 +1084,25 @@ func runRefTag(c *core.Ctx) {
 	if !found {
 		c.Fail("tag-annotation:"+name, ph.insert.Pos(), "no ref-name annotation is set on the inserted index entry: tags cannot be created")
 	}
+}
+
+// fieldWritten: a field of the local struct cell is assigned on its own (x.f = …) somewhere.
+func fieldWritten(cell ssa.Value, field int) bool {
+	if cell.Referrers() == nil {
+		return true
+	}
+	for _, ref := range *cell.Referrers() {
+		fa, ok := ref.(*ssa.FieldAddr)
+		if !ok || fa.Field != field || fa.Referrers() == nil {
+			continue
+		}
+		for _, rr := range *fa.Referrers() {
+			if st, ok := rr.(*ssa.Store); ok && st.Addr == ssa.Value(fa) {
+				return true
+			}
+		}
+	}
+	return false
 }
 
 // ---- referrer helpers ----
